@@ -457,4 +457,50 @@ def srcGauss : List (String × String) :=
    ("U.draw", "next(self._randu)"), ("yield.0", "R*math.cos(S)"), ("yield.1", "R*math.sin(S)"),
    ("gauss.scale", "self.gausses(1,mu,sigma)[0]"), ("gausses.scale", "mu+sigma*g for g in islice(self._randg,n)")]
 
+/-! ### Phase 6: the filters of coba/pipes/filters.py that own a generator (`Shuffle`, every path of `Reservoir`)
+
+`Shuffle(seed).filter(items)` and `Reservoir(count,strict,seed).filter(items)` create `CobaRandom(self._seed)` INSIDE every
+`filter` call; the filter object itself holds only the seed.  Items are `range(n)`; seeds are already normalised states. -/
+
+inductive Flt
+  | shuffle (s : Nat)
+  | reservoir (count : Option Nat) (strict : Bool) (s : Nat)
+deriving Repr
+
+/-- the result of one `filter` call: a finished list, or (Reservoir with at least `count` items) the shuffled first `count`
+items together with the generator state from which Algorithm L takes its triples (`batchedTriples`) -/
+inductive FltOut
+  | items (l : List Nat)
+  | walk (perm : List Nat) (s : Nat)
+deriving Repr, DecidableEq
+
+/-- what a new `CobaRandom(seed)` returns for `shuffle(list(range(n)))` -/
+def shuffleFilter (s n : Nat) : List Nat := (shuffle (fresh s).g.s (List.range n)).2
+
+/-- the branches of `Reservoir.filter` in source order: `count == 0`, `count is None`, fewer than `count` items
+(`[] if strict else shuffle`), otherwise in-place shuffle of the first `count` items and the walk -/
+def fltOut : Flt → Nat → FltOut
+  | .shuffle s, n => .items (shuffleFilter s n)
+  | .reservoir none _ s, n => .items (shuffleFilter s n)
+  | .reservoir (some c) strict s, n =>
+    if c = 0 then .items []
+    else if n < c then (if strict then .items [] else .items (shuffleFilter s n))
+    else .walk (shuffleFilter s c) (shuffle (fresh s).g.s (List.range c)).1
+
+/-- one `filter(range(n))` call on object number `o` of a collection; below: a history of `filter` calls `(object, n)` on a collection of filter objects: the objects carry no generator, so every call
+starts from its object's seed -/
+def fltAt (objs : List Flt) (o n : Nat) : FltOut :=
+  match objs[o]? with | some f => fltOut f n | none => .items []
+
+def fltRun (objs : List Flt) : List (Nat × Nat) → List FltOut
+  | [] => []
+  | (o, n) :: h => fltAt objs o n :: fltRun objs h
+
+/-- what the model assumes about the two `filter` bodies (translator tie, `Generated/C05Filters.lean`) -/
+def fltNums : List (String × Int) :=
+  [("shuffle.rng_in_filter", 1), ("shuffle.rng_from_self_seed", 1), ("shuffle.inplace", 1), ("shuffle.copies_input", 1),
+   ("reservoir.rng_in_filter", 1), ("reservoir.rng_from_self_seed", 1), ("reservoir.zero_const", 0), ("reservoir.zero_is_first", 1),
+   ("reservoir.none_inplace", 0), ("reservoir.fill_islice_count", 1), ("reservoir.short_is_lt", 1), ("reservoir.short_strict_empty", 1),
+   ("reservoir.short_else_inplace", 1)]
+
 end Coba.C05
